@@ -125,3 +125,57 @@ func Verif_C02_open_then_pipelined_message() {
 	}
 	verifCover("pipelined")
 }
+
+// every connection starts clean: nothing the remote sent on an earlier connection of the same (reused,
+// outbound) FSM object is ever taken for input of the next connection
+func Verif_C02_second_connection_starts_clean() {
+	verifEngineOnly()
+	verifNote("real peer, outbound: the first connection is brought to OpenConfirm or Established (symbolic), then the remote sends a Cease NOTIFICATION with a further OPEN (another identifier) pipelined right behind it, and FIN, all at once, while the callbacks yield (the reader runs ahead of the FSM); at most 2 delays; the session ends without damping and the same FSM re-dials after its idle-hold timer: before the remote has sent anything on the second connection corebgp has written only its OPEN and made no further OnOpenMessage call; the remote's OPEN (third identifier) is then accepted with exactly that identifier, and the session establishes")
+	e := newPenv(false)
+	e.dial.outcomes = []dialOutcome{dialOK, dialOK, dialPendingThenFail}
+	e.pl.yieldInCallbacks = true
+	id2, id3 := verifU32("id2"), verifU32("id3")
+	for _, id := range []uint32{id2, id3} {
+		verifAssume(verifAnd(id>>24 < 224, verifNot(verifAnd(e.cfg.localAS == e.cfg.remoteAS, e.cfg.localID == id))))
+	}
+	verifAssume(verifAnd(id2 != e.remoteID, verifAnd(id3 != e.remoteID, id3 != id2)))
+	e.p.start()
+	state := stOpenConfirm + verifChoose("first-connection-state", 2)
+	c1 := e.bring(out, state)
+	if c1 == nil {
+		return
+	}
+	estab := e.pl.nEstab
+	verifDelayBound(2)
+	c1.chunks = append(c1.chunks, mkFrame(notificationMessageType, []byte{NOTIF_CODE_CEASE, 0}), mkFrame(openMessageType, mkOpenBody(e.cfg.remoteAS, 90, id2)))
+	c1.endMode = 1
+	c1.deliver(len(c1.chunks), true)
+	verifQuiesce()
+	verifDelayBound(0)
+	verifAssert("first-connection-over", c1.closed && e.pl.nClose == estab)
+	verifAssert("first-open-reported-once", e.pl.nOpen == 1)
+	verifAssert("cease-does-not-damp", !e.p.inHoldDown)
+	f := e.p.fsms[out]
+	if f == nil || !verifFireTimer(f.idleHoldTimer) {
+		verifAssert("outbound-fsm-waits-for-idle-hold", false)
+		return
+	}
+	verifQuiesce()
+	c2 := e.conns[out]
+	verifAssert("second-connection", c2 != nil && c2 != c1)
+	if c2 == nil || c2 == c1 {
+		return
+	}
+	verifAssert("only-our-open-before-the-remote-speaks", len(c2.writes) == 1 && c2.wroteOpenFirst() && !c2.closed)
+	verifAssert("no-onopenmessage-before-the-remote-speaks", e.pl.nOpen == 1)
+	c2.send(openMessageType, mkOpenBody(e.cfg.remoteAS, 90, id3))
+	verifQuiesce()
+	verifAssert("second-connection-open-accepted", e.pl.nOpen == 2 && len(c2.writes) == 2 && isKeepalive(c2.writes[1]) && !c2.closed)
+	a4 := e.pl.gotRID.As4()
+	verifAssert("second-connection-identifier-is-the-one-sent-on-it", uint32(a4[0])<<24|uint32(a4[1])<<16|uint32(a4[2])<<8|uint32(a4[3]) == id3)
+	c2.send(keepAliveMessageType, nil)
+	verifQuiesce()
+	verifAssert("second-connection-establishes", e.pl.nEstab == estab+1 && e.p.fsmState[out] == establishedState)
+	verifCover("second-connection-clean")
+	e.p.stop()
+}
